@@ -60,9 +60,12 @@ def seeds() -> str:
         title = next((l.lstrip('# ').strip() for l in notes.splitlines() if l.startswith('#')), '')
         sig = (m.get('check_first_signatures') or [''])[0].replace('signature: ', '')
         conf = 'yes' if m.get('confirmed') else ('yes (at ' + m['confirmed_at'] + ')' if m.get('confirmed_at') else 'no')
-        det = 'yes' if m.get('check_detected') else 'NO'
+        fu = m.get('followup') or {}
+        det = 'yes' if m.get('check_detected') else ('yes (after follow-up)' if fu.get('detected') else 'NO')
+        if not m.get('check_detected') and fu.get('detected'):
+            sig = fu.get('signature', sig)
         tot += 1
-        caught += bool(m.get('check_detected'))
+        caught += bool(m.get('check_detected') or fu.get('detected'))
         out.append(f"| {d.name} | {esc(title)[:160]} | {conf} | {det} | `{esc(sig)[:90]}` |")
     out.append('')
     out.append(f'{caught} of {tot} seeded changes are caught.')
